@@ -330,7 +330,7 @@ def build_scenario(sc):
     return ops, idx
 
 
-BOUNDARY_RE = re.compile(rb"(----=_Part_[A-Za-z]+_)(\d{19})")
+BOUNDARY_RE = re.compile(rb"(=_Part_[A-Za-z]+_)(\d{19})")
 
 
 def canon(recv):
